@@ -44,7 +44,8 @@ func child(h *hist.History, dir, acklog string) {
 	if err != nil {
 		panic(err)
 	}
-	s, err := open(h, dir, h.Cfg.Bits)
+	bits := h.Cfg.Bits
+	s, err := open(h, dir, bits)
 	if err != nil {
 		panic(err)
 	}
@@ -77,7 +78,17 @@ func child(h *hist.History, dir, acklog string) {
 			if o.N != 0 {
 				os.Remove(filepath.Join(dir, "i.buckets"))
 			}
-			if s, err = open(h, dir, h.Cfg.Bits); err != nil {
+			if s, err = open(h, dir, bits); err != nil {
+				panic(err)
+			}
+		case "rebits":
+			// Close, then OpenStore with another index bit size: the index is re-bucketed (C09)
+			if err := s.Close(); err != nil {
+				panic(err)
+			}
+			ack.WriteString(strconv.Itoa(i) + " closed\n")
+			bits = uint8(o.N)
+			if s, err = open(h, dir, bits); err != nil {
 				panic(err)
 			}
 		case "close":
@@ -140,7 +151,7 @@ func allowed(h *hist.History, acked int, closedAt int) (map[string]map[val]bool,
 			note(k)
 			delete(m, k)
 			note(k)
-		case "flush", "reopen", "close":
+		case "flush", "reopen", "close", "rebits":
 			if !inProgress || (o.Kind != "flush" && closedAt == i) {
 				durable = map[string]val{}
 				for k, v := range m {
@@ -272,7 +283,39 @@ func recoverCheck(h *hist.History, dir, acklog string) {
 	if lastPrimary != "" {
 		lastBytes, _ = os.ReadFile(lastPrimary)
 	}
-	s, err := open(h, dir, h.Cfg.Bits)
+	// the bit size the user asks for: that of the last re-bucketing that was started (an interrupted one included)
+	bits := h.Cfg.Bits
+	rebucketing := false
+	for i, o := range h.Ops {
+		if o.Kind == "rebits" && i <= acked {
+			bits = uint8(o.N)
+			rebucketing = i == acked && closedAt == i
+		}
+	}
+	s, err := open(h, dir, bits)
+	if err != nil && rebucketing {
+		// C09 only demands that an interrupted re-bucketing never leaves a store that OPENS with fewer keys; a refused open is
+		// tolerated here when the original bit size still opens the store with everything in it
+		prev := h.Cfg.Bits
+		for i, o := range h.Ops {
+			if o.Kind == "rebits" && i < acked {
+				prev = uint8(o.N)
+			}
+		}
+		s0, err0 := open(h, dir, prev)
+		if err0 != nil {
+			bad("open after an interrupted re-bucketing fails with the new bit size (%v) and with the old one (%v)", err, err0)
+		}
+		got0 := readAll(s0, keys, "after an interrupted re-bucketing, old bit size")
+		for _, k := range keys {
+			if !al[dg(k)][got0[dg(k)]] {
+				bad("after an interrupted re-bucketing (old bit size): Get(%x) = %v %q", k, got0[dg(k)].present, got0[dg(k)].v)
+			}
+		}
+		s0.Close()
+		fmt.Printf("OK acked=%d keys=%d (open with the new bit size refused: %v)\n", acked, len(keys), err)
+		return
+	}
 	if err == nil && lastPrimary != "" && len(lastBytes) <= 1024 {
 		if fi, e := os.Stat(lastPrimary); e == nil {
 			fmt.Printf("TRIM %x %d\n", lastBytes, fi.Size())
@@ -303,7 +346,7 @@ func recoverCheck(h *hist.History, dir, acklog string) {
 		for i, p := range tbl {
 			t[i] = uint64(p)
 		}
-		if msg := fsck.Check(d, fsck.Config{Bits: h.Cfg.Bits, Imax: h.Cfg.Imax, Pmax: h.Cfg.Pmax}, t); msg != "" {
+		if msg := fsck.Check(d, fsck.Config{Bits: bits, Imax: h.Cfg.Imax, Pmax: h.Cfg.Pmax}, t); msg != "" {
 			bad("fsck %s: %s", when, msg)
 		}
 	}
@@ -371,7 +414,7 @@ func recoverCheck(h *hist.History, dir, acklog string) {
 		bad("Close of the recovered store: %v", err)
 	}
 	os.Remove(filepath.Join(dir, "i.buckets"))
-	s2, err := open(h, dir, h.Cfg.Bits)
+	s2, err := open(h, dir, bits)
 	if err != nil {
 		bad("reopen of the recovered store: %v", err)
 	}
@@ -379,7 +422,7 @@ func recoverCheck(h *hist.History, dir, acklog string) {
 	s2.Close()
 	// the image taken after the post-recovery flush, opened without a clean Close
 	os.Remove(filepath.Join(img, "i.buckets"))
-	s3, err := open(h, img, h.Cfg.Bits)
+	s3, err := open(h, img, bits)
 	if err != nil {
 		bad("second restart: open fails: %v", err)
 	}
